@@ -213,6 +213,23 @@ CHECKS["C10"] = {
     "technique": "solver-enumerated program-shape vectors through the real activation path, oracle = Python symtable",
 }
 
+CHECKS["C08"] = {
+    "category": "model_checking",
+    "text": "The current source of the 16 shared-state functions (_tooler, _untooler, SyncedStackedTransforms/StackedTransforms/"
+            "TransformSet methods, BaseOverlay.__enter__/__exit__) is rewritten into coroutines with a scheduling point before every "
+            "statement and between load and store of augmented attribute/subscript assignments; two (thorough: also three) virtual "
+            "threads, each in its own contextvars.Context, run tool/enter/call/exit/untool rounds on one function; the preemption "
+            "positions are a symbolic vector, every schedule with <= 2 preemptions is explored and the path tree exhausted; each "
+            "thread must get exactly its own events and return value and the function must end on its original code with zero "
+            "counters. A failing schedule is re-enforced on real threading.Thread objects (sys.monitoring instruction gating) and "
+            "only reported if it reproduces there.",
+    "design_ref": "DESIGN.md section 4, C08",
+    "note": "Atomicity model: statement level plus load/store split; the interior of transform() and of a call of the instrumented "
+            "function is atomic. The sequentialisation was validated against real threads on 188 schedules (185 identical verdicts, 3 "
+            "with the same failure reported under another class).",
+    "technique": "source-level sequentialisation into virtual threads + solver-chosen bounded-preemption schedules (CrossHair + z3), real-thread replay",
+}
+
 NOT_YET = {}
 
 
